@@ -68,6 +68,29 @@ pub struct Cell {
     /// how the main file is named on the command line: "absolute" | "bare" | "dot-slash" | "relative-dir"
     /// (the working directory is chosen accordingly)
     pub spelling: String,
+    /// a system-call fault injected into the sylt process (with `strace -e inject`), restricted to one path
+    pub fault: Option<SyscallFault>,
+}
+
+#[derive(Clone, Debug, PartialEq)]
+pub struct SyscallFault {
+    /// "write" | "read" | "openat"
+    pub syscall: String,
+    /// errno name: "EINTR" | "EIO" | "ENOSPC" | "EACCES" | "EMFILE"
+    pub error: String,
+    /// the k-th matching call (1-based)
+    pub when: u32,
+    /// which path the fault is tied to: "target" (the -o FILE), "main", or a scenario path of another source file
+    pub on: String,
+}
+
+impl SyscallFault {
+    pub fn label(&self) -> String {
+        format!("{}:{}@{}#{}", self.syscall, self.error, if self.on.starts_with('/') { "import" } else { &self.on }, self.when)
+    }
+    pub fn transient(&self) -> bool {
+        self.error == "EINTR"
+    }
 }
 
 impl Cell {
@@ -80,6 +103,13 @@ impl Cell {
             .set("peer", J::s(&self.peer))
             .set("input", J::s(&self.input))
             .set("spelling", J::s(&self.spelling))
+            .set(
+                "fault",
+                match &self.fault {
+                    Some(f) => J::obj().set("syscall", J::s(&f.syscall)).set("error", J::s(&f.error)).set("when", J::u(f.when as u64)).set("on", J::s(&f.on)),
+                    None => J::Null,
+                },
+            )
     }
     pub fn from_json(j: &J) -> Cell {
         Cell {
@@ -90,6 +120,7 @@ impl Cell {
             peer: j.str_of("peer"),
             input: j.str_of("input"),
             spelling: if j.str_of("spelling").is_empty() { "absolute".into() } else { j.str_of("spelling") },
+            fault: j.get("fault").and_then(|f| f.as_obj().map(|_| SyscallFault { syscall: f.str_of("syscall"), error: f.str_of("error"), when: f.u64_of("when") as u32, on: f.str_of("on") })),
         }
     }
     pub fn label(&self) -> String {
@@ -101,7 +132,7 @@ impl Cell {
             if self.require.is_some() { "+require" } else { "" },
             if self.no_std { "+no-std" } else { "" },
             if self.input != "present" { "+main-missing" } else { "" }
-        )
+        ) + &self.fault.as_ref().map(|f| format!("+{}", f.label())).unwrap_or_default()
     }
 }
 
@@ -112,12 +143,12 @@ pub fn all_cells(req_a: &str, req_b: &str) -> Vec<Cell> {
     let flags: Vec<(Option<String>, bool)> = vec![(None, false), (Some(req_a.into()), false), (None, true), (Some(req_b.into()), true)];
     for (req, ns) in &flags {
         for peer in ["P1-ok", "P2-stderr-exit1", "P2b-long-stderr-exit1", "P3-stderr-exit0", "P4-silent-exit1"] {
-            out.push(Cell { mode: "run".into(), require: req.clone(), no_std: *ns, target: String::new(), peer: peer.into(), input: "present".into(), spelling: "absolute".into() });
+            out.push(Cell { mode: "run".into(), require: req.clone(), no_std: *ns, target: String::new(), peer: peer.into(), input: "present".into(), spelling: "absolute".into(), fault: None });
         }
         for target in ["O1-absent", "O2-existing", "O2b-existing-longer", "O3-parent-missing", "O4-is-directory", "O5-component-is-file", "O6-dev-full"] {
-            out.push(Cell { mode: "file".into(), require: req.clone(), no_std: *ns, target: target.into(), peer: String::new(), input: "present".into(), spelling: "absolute".into() });
+            out.push(Cell { mode: "file".into(), require: req.clone(), no_std: *ns, target: target.into(), peer: String::new(), input: "present".into(), spelling: "absolute".into(), fault: None });
         }
-        out.push(Cell { mode: "stdout".into(), require: req.clone(), no_std: *ns, target: String::new(), peer: String::new(), input: "present".into(), spelling: "absolute".into() });
+        out.push(Cell { mode: "stdout".into(), require: req.clone(), no_std: *ns, target: String::new(), peer: String::new(), input: "present".into(), spelling: "absolute".into(), fault: None });
     }
     for mode in ["run", "file", "stdout"] {
         out.push(Cell {
@@ -128,10 +159,27 @@ pub fn all_cells(req_a: &str, req_b: &str) -> Vec<Cell> {
             peer: if mode == "run" { "P1-ok".into() } else { String::new() },
             input: "main-missing".into(),
             spelling: "absolute".into(),
+            fault: None,
         });
     }
-    out.push(Cell { mode: "help".into(), require: None, no_std: false, target: String::new(), peer: String::new(), input: "present".into(), spelling: "absolute".into() });
-    out.push(Cell { mode: "noargs".into(), require: None, no_std: false, target: String::new(), peer: String::new(), input: "present".into(), spelling: "absolute".into() });
+    // system-call faults in the sylt process itself, tied to one path (the strace injection seam)
+    let f = |syscall: &str, error: &str, on: &str| Some(SyscallFault { syscall: syscall.into(), error: error.into(), when: 1, on: on.into() });
+    for (mode, target, fault) in [
+        ("file", "O1-absent", f("write", "EINTR", "target")),
+        ("file", "O2-existing", f("write", "EINTR", "target")),
+        ("file", "O2b-existing-longer", f("write", "EINTR", "target")),
+        ("file", "O1-absent", f("write", "ENOSPC", "target")),
+        ("file", "O2-existing", f("write", "EIO", "target")),
+        ("file", "O1-absent", f("read", "EINTR", "main")),
+        ("stdout", "", f("read", "EINTR", "main")),
+        ("file", "O2-existing", f("read", "EIO", "main")),
+        ("stdout", "", f("openat", "EACCES", "main")),
+        ("file", "O1-absent", f("openat", "EMFILE", "main")),
+    ] {
+        out.push(Cell { mode: mode.into(), require: None, no_std: false, target: target.into(), peer: String::new(), input: "present".into(), spelling: "absolute".into(), fault });
+    }
+    out.push(Cell { mode: "help".into(), require: None, no_std: false, target: String::new(), peer: String::new(), input: "present".into(), spelling: "absolute".into(), fault: None });
+    out.push(Cell { mode: "noargs".into(), require: None, no_std: false, target: String::new(), peer: String::new(), input: "present".into(), spelling: "absolute".into(), fault: None });
     out
 }
 
@@ -392,7 +440,16 @@ impl Runner {
             _ => ("", 0),
         };
         let mut cmd = Command::new("timeout");
-        cmd.arg("-k").arg("5").arg("30").arg("prlimit").arg("--as=4294967296").arg(&self.bin).args(&args);
+        cmd.arg("-k").arg("5").arg("30");
+        if let Some(f) = &cell.fault {
+            let path = match f.on.as_str() {
+                "target" => target_path.clone().unwrap_or_default(),
+                "main" => main_real.clone(),
+                other => format!("{}{}", root, other.strip_prefix(SIM_ROOT).unwrap_or(other)),
+            };
+            cmd.arg("strace").arg("-f").arg("-o").arg("/dev/null").arg("-e").arg(format!("trace={}", f.syscall)).arg("-e").arg(format!("inject={}:error={}:when={}", f.syscall, f.error, f.when)).arg("-P").arg(path);
+        }
+        cmd.arg("prlimit").arg("--as=4294967296").arg(&self.bin).args(&args);
         cmd.current_dir(&cwd)
             .env_clear()
             .env("PATH", &self.path_env)
@@ -518,6 +575,19 @@ pub fn judge(cell: &Cell, exp: &Expected, obs: &ProcObs, root: &str, preamble: &
         return CellVerdict { violations: vs, observations: notes };
     }
 
+    if let Some(fault) = &cell.fault {
+        if fault.on == "target" && !fault.transient() {
+            // a device error or a full disk while writing: the property quantifies over output *paths*, not over
+            // failing devices - recorded, not judged (but the exit status must not claim success)
+            notes.push(format!("syscall-fault {} exit={} file={}", fault.label(), exit, match &obs.target_bytes { Some(b) if *b == exp.bytes => "complete", Some(b) if b.is_empty() => "empty", Some(_) => "partial", None => "absent" }));
+            if exp.accepted && exit == 0 && obs.target_bytes.as_ref().map(|b| *b != exp.bytes).unwrap_or(true) {
+                vs.push(v("exit-status", "zero-after-failed-write", format!("[{}] writing FILE failed with {} but the exit status is 0 and FILE is not the complete program", label, fault.error)));
+            }
+            return CellVerdict { violations: vs, observations: notes };
+        }
+        // transient faults (EINTR) must be invisible; a source that cannot be read is judged like a missing one
+        // (the caller computed the expectation accordingly)
+    }
     let target_ok = cell.mode != "file" || matches!(cell.target.as_str(), "O1-absent" | "O2-existing" | "O2b-existing-longer" | "O8-left-over-from-previous-compile");
     let peer_ok = cell.mode != "run" || cell.peer == "P1-ok";
     let should_succeed = exp.accepted && target_ok && peer_ok;
@@ -823,6 +893,9 @@ pub fn run_c20(tier: &str, batch_seed: u64) -> LayerBResult {
                 for (ci, cell) in cells.iter().enumerate() {
                     let main_missing = cell.input == "main-missing";
                     let root_used = if main_missing { runner.layout(&prog, "pm", true) } else { root.clone() };
+                    // a main file that exists but cannot be opened or read is, to the compiler, a missing file
+                    let unreadable_main = cell.fault.as_ref().map(|f| f.on == "main" && !f.transient()).unwrap_or(false);
+                    let main_missing = main_missing || unreadable_main;
                     let key = (cell.require.clone(), cell.no_std, main_missing);
                     if !exp_cache.contains_key(&key) {
                         let e = expected_for(&prog, &root_used, &cell.require, cell.no_std, main_missing);
@@ -860,7 +933,7 @@ pub fn run_c20(tier: &str, batch_seed: u64) -> LayerBResult {
                         }
                     }
                     if let Some(code) = obs.exit {
-                        if cell.input == "present" && cell.require.is_none() {
+                        if cell.input == "present" && cell.require.is_none() && cell.fault.is_none() {
                             exit_by_flags.insert((cell.mode.clone(), cell.target.clone(), cell.peer.clone(), cell.no_std), code);
                         }
                     }
@@ -921,7 +994,7 @@ pub fn run_c20(tier: &str, batch_seed: u64) -> LayerBResult {
                     a.no_std_equiv_checked += 1;
                 }
                 if let Some(vv) = nostd_violation {
-                    let cell = Cell { mode: "file".into(), require: None, no_std: true, target: "O1-absent".into(), peer: String::new(), input: "present".into(), spelling: "absolute".into() };
+                    let cell = Cell { mode: "file".into(), require: None, no_std: true, target: "O1-absent".into(), peer: String::new(), input: "present".into(), spelling: "absolute".into(), fault: None };
                     let doc = layer_b_doc("C20", &vv, &prog, &cell, &ProcObs::default(), &root, batch_seed, i);
                     a.violations.entry(vv.id()).or_insert((doc, 0)).1 += 1;
                 }
@@ -1018,6 +1091,7 @@ pub fn replay(doc: &J, id: &str) -> i32 {
         let cell = Cell::from_json(lb.get("cell").unwrap_or(&J::obj()));
         let main_missing = cell.input == "main-missing";
         let root = runner.layout(&prog, "p", main_missing);
+        let main_missing = main_missing || cell.fault.as_ref().map(|f| f.on == "main" && !f.transient()).unwrap_or(false);
         let exp = expected_for(&prog, &root, &cell.require, cell.no_std, main_missing);
         let plain = expected_for(&prog, &root, &None, cell.no_std, main_missing);
         let obs = runner.run_cell(&prog, &cell, &root, &[]);
@@ -1054,7 +1128,7 @@ const ENVS: &[&[(&str, &str)]] = &[
 ];
 
 fn c16_observe(runner: &Runner, prog: &Program, root: &str, rep: usize) -> String {
-    let mut cell = Cell { mode: "file".into(), require: None, no_std: false, target: "O1-absent".into(), peer: String::new(), input: "present".into(), spelling: "absolute".into() };
+    let mut cell = Cell { mode: "file".into(), require: None, no_std: false, target: "O1-absent".into(), peer: String::new(), input: "present".into(), spelling: "absolute".into(), fault: None };
     let env: Vec<(String, String)> = ENVS[rep % ENVS.len()].iter().map(|(k, v)| (k.to_string(), v.to_string())).collect();
     if rep % 3 == 2 {
         // history through the file system: the output path still holds what an earlier compilation
@@ -1249,7 +1323,7 @@ pub fn run_c07_processes(tier: &str, batch_seed: u64) -> LayerBResult {
                 };
                 let root = runner.layout(&prog, "p", false);
                 let spelling = ["absolute", "bare", "dot-slash", "relative-dir"][((i / 4 + i) % 4) as usize];
-                let cell = Cell { mode: "file".into(), require: None, no_std, target: "O1-absent".into(), peer: String::new(), input: "present".into(), spelling: spelling.into() };
+                let cell = Cell { mode: "file".into(), require: None, no_std, target: "O1-absent".into(), peer: String::new(), input: "present".into(), spelling: spelling.into(), fault: None };
                 let obs = runner.run_cell(&prog, &cell, &root, &[]);
                 let mut verdict = judge_c07_process(&obs);
                 let strict = prog.files.values().map(|t| gen::nesting_depth_strict(t)).max().unwrap_or(0);
